@@ -56,6 +56,29 @@ func (t *Table) SetAttributeDefinition(attrs []*types.AttributeDefinition) {
 	}
 }
 
+// UpdateAttributeDefinition adds attribute definitions to a table that is in use: a key attribute
+// of the table or of one of its indexes keeps the type it was declared with
+func (t *Table) UpdateAttributeDefinition(attrs []*types.AttributeDefinition) error {
+	inUse := map[string]bool{t.KeySchema.HashKey: true, t.KeySchema.RangeKey: true}
+	for _, index := range t.Indexes {
+		inUse[index.keySchema.HashKey] = true
+		inUse[index.keySchema.RangeKey] = true
+	}
+
+	for _, attr := range attrs {
+		name := types.StringValue(attr.AttributeName)
+
+		if declared, ok := t.AttributesDef[name]; ok && name != "" && inUse[name] && declared != types.StringValue(attr.AttributeType) {
+			return types.NewError("ValidationException",
+				fmt.Sprintf("attribute %q is a key attribute of type %s and cannot be redefined as %s", name, declared, types.StringValue(attr.AttributeType)), nil)
+		}
+	}
+
+	t.SetAttributeDefinition(attrs)
+
+	return nil
+}
+
 func parseKeySchema(schema []*types.KeySchemaElement) (keySchema, error) {
 	var ks keySchema
 
